@@ -42,13 +42,25 @@ def fallback_defs(P: Project):
     raise AnalysisError("anchor: `if PYDANTIC_AVAILABLE:` split not found in mcp_pydantic_base")
 
 
-def nested_serialiser_obligations(fb_methods, R):
+def nested_serialiser_obligations(fb_methods, R, fb_funcs=None):
     """[(label, ok, line, detail, sample)]: the fallback's nested serialiser maps the elements of free-form lists and
-    dicts one to one (shared by C09-R8 and C06-R3)."""
+    dicts one to one (shared by C09-R8 and C06-R3).  Helpers of the fallback branch that the serialiser hands the value
+    to (`_dump_value(value, options)`) are part of it."""
     dumpf = fb_methods.get("model_dump")
     sv = fb_methods.get("_serialize_value")
     R.need(dumpf is not None, "anchor: fallback model_dump not found")
     nested_fns = [sv] if sv is not None else [dumpf]
+    fb_funcs = fb_funcs or {}
+    grew = True
+    while grew and len(nested_fns) < 6:
+        grew = False
+        for fnode in list(nested_fns):
+            for c in walk_local(fnode):
+                if isinstance(c, ast.Call):
+                    g = fb_funcs.get(c.func.id) if isinstance(c.func, ast.Name) else (fb_methods.get(c.func.attr) if isinstance(c.func, ast.Attribute) and isinstance(c.func.value, ast.Name) and c.func.value.id in ("self", "cls") else None)
+                    if g is not None and g not in nested_fns and g is not dumpf:
+                        nested_fns.append(g)
+                        grew = True
     out = []
     n_maps = 0
     for fnode in nested_fns:
@@ -354,7 +366,7 @@ def check(P: Project, R: Report) -> None:
 
     # ------------------------------------------------------------------ R8: the fallback's dump keeps free-form containers intact
     R.rule("R8", "re-serialisation: Pydantic applies exclude_none to declared fields only, so the fallback's nested serialiser must map the elements of free-form lists and dicts one to one — no filter in its comprehensions, no conditional skip in its loops, dict keys unchanged")
-    for label, ok, lineno, detail, sample in nested_serialiser_obligations(fb_methods, R):
+    for label, ok, lineno, detail, sample in nested_serialiser_obligations(fb_methods, R, funcs):
         R.ob("R8", label, ok, f"{base_rel}:{lineno}", detail, sample=sample)
 
     # ------------------------------------------------------------------ R5
